@@ -57,6 +57,8 @@ type H struct {
 	confToks []string
 	root     string // directory of the dir / memdir store
 	workDir  string
+	sentinel string // directory that contains the root and an outside layout
+	outside  []string
 	histN    int
 	sessN    map[string]int    // real session id -> public number
 	sessID   map[int]string    // public number -> real id
@@ -161,6 +163,10 @@ func (h *H) closeServer() {
 
 func (h *H) newHistory(tk []string) {
 	h.closeServer()
+	if h.sentinel != "" {
+		_ = os.RemoveAll(h.sentinel)
+		h.sentinel = ""
+	}
 	if h.root != "" {
 		_ = os.RemoveAll(h.root)
 	}
@@ -168,8 +174,12 @@ func (h *H) newHistory(tk []string) {
 	h.root = ""
 	st := kv(tk, "store")
 	if st == "dir" || st == "memdir" {
-		h.root = filepath.Join(h.workDir, fmt.Sprintf("root%d", h.histN))
+		// the root sits inside a sentinel tree; next to it an OCI layout that no request may reach
+		base := filepath.Join(h.workDir, fmt.Sprintf("root%d", h.histN))
+		h.root = filepath.Join(base, "store")
 		_ = os.MkdirAll(h.root, 0o755)
+		h.makeOutside(filepath.Join(base, "outside"))
+		h.sentinel = base
 	}
 	h.confToks = tk
 	h.conf = h.buildConf(tk)
@@ -365,6 +375,18 @@ func (h *H) sliceName(dcd, crange string, body []byte) string {
 	return fmt.Sprintf("%s[%d-%d]", p[1], lo, hi)
 }
 
+// makeOutside writes a small OCI layout next to the root: nothing in it may ever be served or changed
+func (h *H) makeOutside(dir string) {
+	secret := []byte("outsidesecret")
+	d := digest.FromBytes(secret)
+	_ = os.MkdirAll(filepath.Join(dir, "blobs", "sha256"), 0o755)
+	_ = os.WriteFile(filepath.Join(dir, "oci-layout"), []byte(`{"imageLayoutVersion":"1.0.0"}`), 0o644)
+	_ = os.WriteFile(filepath.Join(dir, "index.json"), []byte(`{"schemaVersion":2,"manifests":[]}`), 0o644)
+	_ = os.WriteFile(filepath.Join(dir, "blobs", "sha256", d.Encoded()), secret, 0o644)
+	h.tk.reg("outsidesecret", secret)
+	h.outside = fsSnapshot(dir)
+}
+
 func (h *H) refArg(ref string) string {
 	if strings.Contains(ref, ":") {
 		return h.tk.realDigest(ref)
@@ -403,6 +425,7 @@ func (h *H) apply(line string) (string, bool) {
 	if has && h.srv != nil && !strings.HasPrefix(line, "DEF") && !strings.HasPrefix(line, "SNAP") {
 		h.mon.layoutOK(h)
 		h.mon.fsUnchanged(h)
+		h.mon.generic(h, line, out)
 	}
 	return out, has
 }
@@ -527,13 +550,17 @@ func (h *H) apply1(line string) (string, bool) {
 		hdr := map[string][]string{}
 		acc := csv(kv(a, "accept"))
 		switch kv(a, "accform") {
-		case "joined":
+		case "joined", "bare":
 			l := []string{}
 			for _, x := range acc {
 				l = append(l, mtRealOf(x))
 			}
+			sep := ", "
+			if kv(a, "accform") == "bare" {
+				sep = "," // a legal list without blanks after the commas
+			}
 			if len(l) > 0 {
-				hdr["Accept"] = []string{strings.Join(l, ", ")}
+				hdr["Accept"] = []string{strings.Join(l, sep)}
 			}
 		case "param":
 			for _, x := range acc {
